@@ -379,6 +379,23 @@ func genC01(o *cw) {
 			}
 		}
 	}
+	// prefixed and unprefixed name tests in one predicate-free path (no namespace map)
+	nsd := nsDocs(o)
+	pnames := []string{"book", "b:book", "c:book", "x:book", "other", "b:other", "a", "b", "p:a", "q:a", "p:b", "*", "node()", "q:b"}
+	for i := 0; i < 150*o.tier; i++ {
+		p := gen.Path{Abs: g.r.Chance(60)}
+		n := 2 + g.r.Intn(2)
+		for j := 0; j < n; j++ {
+			ax := g.r.Pick([]string{"child", "child", "descendant", "parent", "following-sibling", "ancestor-or-self", "self", "descendant-or-self", "preceding-sibling"})
+			p.Steps = append(p.Steps, gen.Step{Axis: ax, Test: g.r.Pick(pnames), DSlash: j > 0 && g.r.Chance(20)})
+		}
+		if g.r.Chance(30) {
+			p.Steps = append(p.Steps, gen.Step{Axis: "attribute", Test: g.r.Pick([]string{"id", "b:id", "x:id", "*", "p:x", "x"})})
+		}
+		o.features(p)
+		pr := nsd[g.r.Intn(len(nsd))]
+		o.c("selall", pr[i%2], "/", "-", gen.Str(p, both[i%2]), "", "prefixed-names")
+	}
 	// random 3-5 step paths on random trees
 	for i := 0; i < 400*o.tier; i++ {
 		p := gen.Path{Abs: g.r.Chance(30)}
@@ -432,6 +449,23 @@ func genC02(o *cw) {
 	o.emitCtxRestore(g, cds, "cmp", 80*o.tier, false)
 	o.emitStatefulArgs(g, cds, "numeric", 12*o.tier)
 	o.emitStatefulArgs(g, cds, "bool", 12*o.tier)
+	// numeric relational tests and =/!= literal tests over MULTI-valued operands
+	// (several nodes per candidate, numeric and non-numeric values in either order)
+	mv := o.doc(doc.Parse(`r(a(b("n/a"),b("7")),a(b("7"),b("n/a")),a(b("3")),a(b("n/a")),a(b("9"),b("3"),b("x")),a,a(@x=7,b("1")),a(@x=z,b("7"),c("7")))`), false)
+	for _, lhs := range []string{"b", "*", "b | c", "@x", "b/text()", "."} {
+		for _, op := range []string{"=", "!=", "<", "<=", ">", ">="} {
+			for _, rhs := range []string{"5", "7", "3", "'7'", "'n/a'", "0"} {
+				if (op != "=" && op != "!=") && rhs[0] == '\'' {
+					continue
+				}
+				o.c("selall", mv, "/", "-", "//a["+lhs+" "+op+" "+rhs+"]", "", "multivalued-cmp")
+				if rhs[0] != '\'' {
+					o.c("selall", mv, "/", "-", "//a["+rhs+" "+op+" "+lhs+"]", "", "multivalued-cmp")
+				}
+				o.c("selall", mv, "/", "-", "//a[not("+lhs+" "+op+" "+rhs+")]", "", "multivalued-cmp")
+			}
+		}
+	}
 	for i := 0; i < 700*o.tier; i++ {
 		var p gen.Ex
 		switch g.r.Intn(4) {
